@@ -160,10 +160,14 @@ class HGen:
         self.r = rnd
         self.ids = []       # ids of frames believed stored (ints)
         self.ctxs = [0]     # ids of registered contexts
+        self.maybe = []
         self.hashes = []
 
     def pick_ctx(self):
         k = self.r.random()
+        if self.maybe and self.r.random() < 0.3:
+            c = self.r.choice(self.maybe)     # ids of imported xs.context-topic frames (registered only if in the zero context)
+            return "ok:" + hex32(c), c
         if k < 0.5:
             return "-", 0
         if k < 0.85 and len(self.ctxs) > 1:
@@ -226,7 +230,7 @@ class HGen:
             if kk < 0.8:
                 h = integrity(bytes([r.randrange(256) for _ in range(8)]))
                 return dict(kind=k, toks=["casget", "ok:" + xh(h)], raw=render("GET", "/cas/" + h))
-            return dict(kind=k, toks=["casget", "bad"], raw=render("GET", "/cas/" + r.choice(["nope", "sha256-!!!", "", "md4-abcd"])))
+            return dict(kind=k, toks=["casget", "bad"], raw=render("GET", "/cas/" + r.choice(["nope", "sha256-!!!", "", "md4-abcd", "sha256-abc", "sha256-a", "sha256-ab=c", "sha256-aa==", "sha512-abc"])))
         if k == "caspost":
             body = r.choice(BODIES)
             h = integrity(body) if body else None
@@ -240,7 +244,7 @@ class HGen:
             i = r.randrange(1, 2 ** 90)
             c = r.choice(self.ctxs + [r.randrange(1, 2 ** 64)])
             topic = r.choice(TOPICS + ["a\x00b", "xs.context"])
-            if topic == "xs.context":
+            if topic == "xs.context" and r.random() < 0.6:
                 c = 0
             meta = r.choice(METAS)
             ttl = r.choice([None, "forever", "head:3", "ephemeral"])
@@ -249,7 +253,7 @@ class HGen:
             tt = "-" if ttl is None else (ttl if ":" not in ttl else ttl.split(":")[0] + ":%x" % int(ttl.split(":")[1]))
             toks = ["import", hex32(i), hex32(c), xh(topic), "-", xh(meta) if meta else "-", tt]
             return dict(kind=k, toks=toks, raw=render("POST", "/import", body=body),
-                        imports=(i, topic, c) if "\x00" not in topic else None)
+                        imports=(i, topic, c) if "\x00" not in topic else None, probe_ctx=i if topic == "xs.context" else None)
         if k == "version":
             return dict(kind=k, toks=["version"], raw=render("GET", "/version"))
         return dict(kind="notfound", toks=["notfound"], raw=render(self.r.choice(["PUT", "PATCH"]), "/" + self.r.choice(["a", "cas", ""])))
@@ -355,6 +359,8 @@ def run_sequence(seed, n_req, fixed=True, services="api"):
             if req["kind"] == "import" and status == 200 and req.get("imports"):
                 i, topic, c = req["imports"]
                 g.ids.append(i)
+                if topic == "xs.context":
+                    g.maybe.append(i)
                 if topic == "xs.context" and c == 0:
                     g.ctxs.append(i)
             if srv.alive():
